@@ -9,9 +9,9 @@
    (all ten components, every stored frame, the label-like lists and their order) is preserved when a frame of the announced
    shape is appended to a data set that holds analog data (C05_frame_append_preserves_the_agreement) or points only
    (C05_frame_append_points_only), or REPLACES any stored frame, frame 0 included (C05_frame_replace_preserves_the_agreement;
-   the general form for any index is C05_frame_call_general).  NOT yet proved: the whole predicate for extensions beyond the
-   count (they leave unfilled frames: a known finding when frame 0 is one of them), and for the column and declare calls:
-   decided by the check. *)
+   or extends the data set beyond the count — every index at once: C05_frame_any_index; the general form is
+   C05_frame_call_general).  NOT yet proved: the whole predicate for the first frame of an empty data set, for extensions of a
+   points-only data set, and for the column, declare and parameter calls: decided by the check. *)
 From EZ Require Import Base Types Api Proofs_Param Proofs_Guards Spec_Inv Proofs_Inv Proofs_Header Spec_Typed Proofs_Updaters Proofs_ApiSafe Proofs_InvFrame Float32 Run.
 Local Open Scope N_scope.
 
@@ -189,6 +189,23 @@ Theorem C05_frame_replace_preserves_the_agreement : forall f_key f_tosize f_div 
   Inv s'.
 Proof. exact frame_replace_keeps_inv. Qed.
 Print Assumptions C05_frame_replace_preserves_the_agreement.
+
+(* EVERY INDEX AT ONCE: append (no index), replace (index below the count, frame 0 included), extend (index at or beyond
+   the count: the frames in between stay unfilled) — on a data set whose frame 0 holds analog data, any accepted frame() of
+   the announced shape leaves header, parameters and stored frames in agreement *)
+Theorem C05_frame_any_index : forall f_key f_tosize f_div f_is_zero,
+  (forall x e, f_key x <> Throw e) -> (forall x e, f_tosize x <> Throw e) ->
+  forall f idx s s' f0 ft a,
+  Inv s -> MT (groups s) ->
+  frames s = f0 :: ft -> fr_subs f0 <> [] ->
+  lk_int0 (groups s) nm_ANALOG nm_USED = Some a -> a <> 0 ->
+  announced s f ->
+  nlen (frames s) + 1 < 2147483648 -> (forall i, idx = Some i -> i + 1 < 2147483648) ->
+  nlen (fr_pts f0) < 2147483648 -> a < 2147483648 -> a * h_byframe (hdr s) < two64 ->
+  api_frame f_key f_tosize f_div f_is_zero f idx s = ROk tt s' ->
+  Inv s'.
+Proof. exact frame_any_index_keeps_inv. Qed.
+Print Assumptions C05_frame_any_index.
 
 (* the general form: whatever the index (append, replace, extend), if the frame list after the store has a first frame with
    analog data of the announced shape and names, and every filled frame has the announced shape, the agreement holds again *)
